@@ -1,5 +1,5 @@
 (* non-vacuity: concrete values meeting the hypotheses of each theorem *)
-From V Require Import Common.Base C06.TsTokens C06.SkipType C06.TypeGrammar C06.SkipProofs C06.SkipProofs6 C06.TypeArgsExpr C06.Erase C06.Enum gen.TsTargetsGen C06.TsTarget.
+From V Require Import Common.Base C06.TsTokens C06.SkipType C06.TypeGrammar C06.SkipProofs C06.SkipProofs6 C06.TypeArgsExpr C06.Erase C06.Enum gen.TsTargetsGen C06.TsTarget C06.ParamProps.
 
 (* Array<Array<number>> = 1 : the ">>" token is split by the inner list *)
 Example nested_generic :
@@ -78,3 +78,9 @@ Proof. vm_compute. auto. Qed.
 Example ex_targets : map go_target [[69;83;50;48;50;50]; [101;115;50;48;50;49]; [69;83;78;101;120;116]; [101;115;55]] = [Some true; Some false; Some true; None]
   /\ spec_define 0 (Some [69;83;50;48;50;50]) = true /\ spec_define 0 (Some [101;115;50;48;50;49]) = false /\ spec_define 2 (Some [69;83;50;48;50;50]) = false.
 Proof. vm_compute. auto. Qed.
+
+(* class P extends B { f = i1; constructor(public x, y, private z) { s1; super(); s2 } g = i2 } *)
+Example ex_pp : lower true [(1, true); (2, false); (3, true)] [10; 11] [SOther 1; SSuper; SOther 2]
+  = Some [SOther 1; SSuper; SAssignParam 1; SAssignParam 3; SFieldInit 10; SFieldInit 11; SOther 2]
+  /\ forallb user_stmt [SOther 1; SSuper; SOther 2] = true /\ NoDup (map fst [(1, true); (2, false); (3, true)]).
+Proof. split; [reflexivity|]. split; [reflexivity|]. repeat constructor; cbn; intuition; discriminate. Qed.
